@@ -279,6 +279,16 @@ def run(ctx, prop):
     for name in order:
         hs += fam[name]
         origin += [name] * len(fam[name])
+    # vacuity guard (TLC's -coverage cannot be used on these modules: it runs out of memory while building its cost
+    # model, before the first state): the operations actually present in the generated histories are counted
+    opc = {}
+    for h in hs:
+        for o in h:
+            opc[o["op"]] = opc.get(o["op"], 0) + 1
+    ctx.cov["operation_counts"] = opc
+    missing = [k for k in ("cnew", "vnew", "expand", "free", "vbound", "vpen", "cbound", "solve") if not opc.get(k)]
+    if missing:
+        raise vlib.InfraError("the generated histories never use %s: nothing would be checked for them" % missing)
     t0 = time.time()
     hdr, recs, aborts, fails = evaluate(ctx, prop, hs, "all")
     vlib.log("%s: %d histories replayed and judged in %.1fs" % (prop, len(hs), time.time() - t0))
